@@ -11,7 +11,7 @@
  *   init | load | destroy
  *   synthetic <description ...>          xmlbuf <xml text on one line>
  *   filter <type|-1 all|-2 cache|-3 icache|-4 io> <filter>      flags <word>
- *   restrict <flags> <list|none>
+ *   restrict <flags> <list|none>         allow <cpuset list|-> <nodeset list|->   (custom allowed sets)
  *   group <cpuset> <dont_merge>          misc <depth> <lidx> <name>
  *   subtype <depth> <lidx> <text|->
  *   exportxml                            (logs the XML text; used by the pre-pass only)
@@ -277,6 +277,13 @@ static void handler(char **lines, size_t n, int beh) {
     if (!strcmp(cmd, "restrict")) {
       unsigned long fl = (unsigned long)hwv_tokl(&p); hwloc_bitmap_t s = parse_set(hwv_tok(&p));
       ret = hwloc_topology_restrict(topo, s, fl); ev_setup("restrict", ret, errno); hwloc_bitmap_free(s);
+    } else if (!strcmp(cmd, "allow")) {
+      /* allow <cpuset list|-> <nodeset list|-> : HWLOC_ALLOW_FLAG_CUSTOM (needs the INCLUDE_DISALLOWED topology flag) */
+      const char *cs = optarg_str(hwv_tok(&p)), *ns = optarg_str(hwv_tok(&p));
+      hwloc_bitmap_t c = cs ? parse_set(cs) : NULL, n = ns ? parse_set(ns) : NULL;
+      ret = hwloc_topology_allow(topo, c, n, HWLOC_ALLOW_FLAG_CUSTOM); ev_setup("allow", ret, errno);
+      if (c) hwloc_bitmap_free(c);
+      if (n) hwloc_bitmap_free(n);
     } else if (!strcmp(cmd, "group")) {
       char *cs = hwv_tok(&p); int dm = (int)hwv_tokl(&p); hwloc_obj_t g = hwloc_topology_alloc_group_object(topo), o = NULL;
       if (g) { g->cpuset = parse_set(cs); g->attr->group.dont_merge = (unsigned char)dm; errno = 0; o = hwloc_topology_insert_group_object(topo, g); }
